@@ -142,10 +142,7 @@ type Backend struct {
 
 // NewBackend starts a scripted backend.
 func NewBackend(name string) *Backend {
-	ln, err := net.Listen("tcp", "127.0.0.1:0")
-	if err != nil {
-		panic(err)
-	}
+	ln := ListenLoopback()
 	b := &Backend{Name: name, ln: ln, Addr: ln.Addr().String(), ProbePath: "/health", ProbeStatus: 200, holds: map[string]chan struct{}{}}
 	b.URL = "http://" + b.Addr
 	b.Default = Script{Status: 200, Headers: [][2]string{{"Content-Type", "text/plain"}, {"X-Backend", name}}, Steps: nil}
@@ -502,6 +499,21 @@ func (b *Backend) serve(w http.ResponseWriter, r *http.Request) {
 	for _, t := range sc.Trailers {
 		w.Header().Set(t[0], t[1])
 	}
+}
+
+// ListenLoopback listens on a free loopback port. When the ephemeral port range is exhausted
+// (connection churn of parallel checks leaves sockets in TIME_WAIT) it backs off in real time.
+func ListenLoopback() net.Listener {
+	var err error
+	for i := 0; i < 600; i++ {
+		var ln net.Listener
+		ln, err = net.Listen("tcp", "127.0.0.1:0")
+		if err == nil {
+			return ln
+		}
+		RealSleep(int64(200 * time.Millisecond))
+	}
+	panic(err)
 }
 
 // DeadAddr returns a loopback address on which nothing listens.
